@@ -21,6 +21,7 @@ RULE = ("cases = (TimePoint kwargs with calendar year 0000-9999 in any of "
         "non-trivial = a format with at least two directives or a point "
         "whose week-year differs from its calendar year; distinct by "
         "(p-fields, format)")
+RUN_REPO_SUITE = True   # thorough tier: repo tests under these monitors
 DECIDING = ["strftime.post", "strptime.post", "unsupported.post"]
 MIN_EVALS = {"strftime.post": 5000, "strptime.post": 2500,
              "unsupported.post": 200}
